@@ -1,7 +1,6 @@
 """C05 — on-chain binary encodings: writer/reader symmetry, canonical forms, exact consumption, bounded allocation."""
 from .common import *
-from vlib import sym, sweeps
-from vlib.callgraph import CallGraph
+from .codec import *
 
 META = dict(
     technique="static analysis: codec-token symmetry of writer/reader pairs, tag-totality, comparison-polarity, bitmap-canonicity and bounded-allocation sweeps over compiler MIR",
@@ -22,56 +21,6 @@ ERR_EXCEPTIONS = {
 }
 
 
-def pairs(c, wtrait, rtrait):
-    ws, rs = {}, {}
-    for p in c.paths():
-        for b in c.get_all(p):
-            if b.get("name") == "serial" and b.get("impl_trait", "").endswith(wtrait):
-                ws[b["impl_self"]] = b
-            if b.get("name") == "deserial" and b.get("impl_trait", "").endswith(rtrait):
-                rs[b["impl_self"]] = b
-    return ws, rs
-
-
-def sym_sweep(ck, c, ws, rs, floor_struct, floor_enum, rule="SYM"):
-    wi = {sym.strip_lt(k): v for k, v in ws.items()}
-    ri = {sym.strip_lt(k): v for k, v in rs.items()}
-    nm = ne = nu = 0
-    unsupported = []
-    for ty in sorted(set(ws) & set(rs)):
-        w, r = Fn(ws[ty]), Fn(rs[ty])
-        v, d = sym.compare_struct(w, r, wi, ri)
-        if v == "MATCH":
-            nm += 1
-            ck.ob(rule, ty, "pair", True, d, w.loc())
-            continue
-        if v == "MISMATCH":
-            exc = SYM_EXCEPTIONS.get(ty)
-            ck.ob(rule, ty, "pair", exc is not None, ("documented exception: " + exc) if exc else d, r.loc())
-            continue
-        base = ty.split("<")[0]
-        adt = c.adts.get(base)
-        res = sym.compare_enum(w, r, base, None, wi, ri) if adt is not None and adt["kind"] == "Enum" else None
-        if res is None:
-            nu += 1
-            unsupported.append(ty)
-            continue
-        for (vv, vi, dd) in res:
-            vn = adt["variants"][vi]["name"] if vi < len(adt["variants"]) else str(vi)
-            if vv == "MATCH":
-                ne += 1
-                ck.ob(rule, ty, "variant:" + vn, True, dd, w.loc())
-            elif vv == "MISMATCH":
-                ck.ob(rule, ty, "variant:" + vn, False, dd, r.loc())
-            else:
-                nu += 1
-                unsupported.append(ty + "::" + vn)
-    ck.floor(rule, "struct pairs with agreeing codec steps", nm, floor_struct)
-    ck.floor(rule, "enum variants with agreeing tag, constructor and payload", ne, floor_enum)
-    ck.extra.setdefault("sym_unsupported", []).extend(unsupported[:80])
-    ck.note("%d pairs/variants outside the SYM abstraction (listed under sym_unsupported), not decided" % nu)
-
-
 def run(ck):
     ck.explanation = ("Decides writer/reader agreement of codec steps for %s pairs, tag totality of every input-driven switch, strict "
                       "ordering of maps/sets, bitmap canonicity, exact consumption at declared lengths and bounded pre-allocation in "
@@ -80,44 +29,17 @@ def run(ck):
                     "(indexing with computed indices); pairs outside the straight-line/variant abstraction (listed).")
     ck.rules_text = "SYM/TAB(tag totality)/CMP/BITMAP/ALLOC/ERR over MIR of concordium_base (all Serial/Deserial impls incl. derive-generated)"
     c = crate("rs", CB)
-    ws, rs = pairs(c, "common::serialize::Serial", "common::serialize::Deserial")
+    ws, rs = pairs(c, r"common::serialize::Serial$", r"common::serialize::Deserial$")
     ck.floor("SYM", "Serial/Deserial pairs", len(set(ws) & set(rs)), 317)
-    sym_sweep(ck, c, ws, rs, 271, 111)
+    sym_sweep(ck, c, ws, rs, 271, 111, exceptions=SYM_EXCEPTIONS)
 
     # ---- tag totality
-    nt = 0
-    for ty, b in sorted(rs.items()):
-        f = Fn(b)
-        for (sb, st, rd) in sweeps.tag_switches(f):
-            nt += 1
-            rr = f.reject_region()
-            ck.ob("TAB", f.path, "tag-totality@bb%d" % sb, st["o"] in rr,
-                  "unknown values of the input-read integer (accepted: %s) lead to a rejecting return" % [v for v, _ in st["t"]][:12]
-                  if st["o"] in rr else "unknown tag values are ACCEPTED (default arm bb%d does not reject)" % st["o"], f.loc(sb))
-    ck.floor("TAB", "input-driven tag switches", nt, 32)
+    tag_totality(ck, rs, 32)
 
     # ---- strict ordering of maps and sets
     S = CB + "::common::serialize::"
     for name in ("deserial_map_no_length", "deserial_set_no_length"):
-        f = getfn(ck, "rs", CB, S + name)
-        if f:
-            gts = [cx for cx in rules.comparisons(f) if cx["kind"] == "call" and cx["op"] == "Gt"]
-            ok = False
-            for cx in gts:
-                br = rules.cmp_branches(f, cx)
-                if br is None:
-                    continue
-                sb, t_t, f_t = br
-                rr = f.reject_region()
-                ins = f.calls(r"BTree(Map|Set)::<.*>::insert$")
-                # not-greater leads to rejection; insertion only on the greater branch
-                if f_t in rr and all(bi not in f.reach_from([f_t], avoid={sb}) for (bi, _) in ins):
-                    # and the comparison is new key > old key (a derives from the fresh read)
-                    oa = f.origins(cx["a"], deep=True)
-                    ob = f.origins(cx["b"], deep=True)
-                    if has_call_origin(oa, r"Get::get$|Deserial::deserial$") and has_call_origin(ob, r"Option::<T>::take$"):
-                        ok = True
-            ck.ob("CMP", f.path, "strictly-increasing-keys", ok, "rejects unless new key > previous key (resolved PartialOrd::gt)", f.loc())
+        strict_order(ck, "rs", CB, S + name)
 
     # ---- specific canonical-form comparisons
     T = CB + "::transactions::"
@@ -160,51 +82,5 @@ def run(ck):
     cc = crate("rs", "concordium_contracts_common")
     cg = CallGraph([c, cc])
     roots = [p for p in cg.bodies if p.endswith("::deserial") and "common::serialize::Deserial" in p]
-    reach = cg.reach(roots)
-    ck.extra["decode_reachable_functions"] = len(reach)
-    na = 0
-    param_fns = {}
-    for p in sorted(reach):
-        for b in cg.bodies[p]:
-            f = Fn(b)
-            for (bi, t) in f.calls(sweeps.ALLOC):
-                na += 1
-                cls, d = sweeps.classify_size(f, bi, t, bounded_types=("PayloadSize", "UpdateHeader"))
-                key = "alloc:%s#%d" % (t["f"]["path"].split("::")[-1], len([o for o in ck.obls if o["func"] == p and o["rule"] == "ALLOC"]))
-                if cls == "param":
-                    param_fns[p] = (f, bi, t)
-                    ck.ob("ALLOC", p, key, True, d + " (obligation moves to the call sites)", f.loc(bi), nontrivial=False)
-                else:
-                    ck.ob("ALLOC", p, key, cls not in ("unbounded", "unknown"), cls + ": " + d, f.loc(bi))
-    ck.floor("ALLOC", "allocation sites in decode-reachable code", na, 15)
-    # callers of parameter-carrying allocators
-    for p, (pf, pbi, pt) in sorted(param_fns.items()):
-        argidx = [a[1] for a in pf.origins(sweeps.size_operand(pt)) if a[0] == "arg"][0]
-        ncall = 0
-        for q in sorted(reach):
-            for b in cg.bodies[q]:
-                f = Fn(b)
-                for (bi, t) in f.calls(re.compile(re.escape(p) + "$")):
-                    ncall += 1
-                    fake = dict(t)
-                    fake = {"f": {"path": "x::with_capacity"}, "args": [t["args"][argidx - 1]], "dest": t["dest"]}
-                    cls, d = sweeps.classify_size(f, bi, fake, bounded_types=("PayloadSize", "UpdateHeader"))
-                    ck.ob("ALLOC", q, "arg-of:%s#%d" % (p.split("::")[-1], bi), cls not in ("unbounded", "unknown", "param"),
-                          "length passed to %s: %s: %s" % (p.split("::")[-1], cls, d), f.loc(bi))
-        ck.note("%s: %d decode-reachable call sites checked" % (p.split("::")[-1], ncall))
-    UNW = re.compile(r"(Option::<T>|Result::<T, E>)::(unwrap|expect|unwrap_unchecked)$")
-    nu = 0
-    for p in sorted(reach):
-        if not (p.endswith("::deserial") or "deserial_" in p):
-            continue
-        for b in cg.bodies[p]:
-            f = Fn(b)
-            for (bi, t) in f.calls(UNW):
-                nu += 1
-                o = f.origins(t["args"][0])
-                rd = [a for a in o if a[0] in ("call", "outparam") and (sweeps.READ.search(a[1]) or re.search(r"try_into$|try_from$|from_utf8$", a[1]))]
-                if rd:
-                    exc = ERR_EXCEPTIONS.get(p)
-                    ck.ob("ERR", p, "unwrap-on-input#%d" % bi, exc is not None, ("documented exception: " + exc) if exc else
-                          "unwrap/expect on a value derived from %s" % [a[1].split("::")[-1] for a in rd], f.loc(bi))
-    ck.extra["unwrap_sites_scanned"] = nu
+    alloc_err_sweep(ck, cg, roots, bounded_types=("PayloadSize", "UpdateHeader"), floor=15, err_exceptions=ERR_EXCEPTIONS,
+                    alloc_exceptions={"concordium_base::transactions::get_encoded_payload": "its length parameter has type PayloadSize, bounded by MAX_PAYLOAD_SIZE in PayloadSize::deserial (CMP instance above)"})
